@@ -40,6 +40,11 @@ impl InstructionGenerator {
         for (case_block_index, case_block) in case_blocks.into_iter().enumerate() {
             // mark the beginning of this case block
             self.label(&labels::case_block(case_block_index), pos);
+            if case_block_index > 0 {
+                // a later CASE line is a statement of its own: RESUME after an error in its
+                // expression evaluates it again (the first one follows the mark of SELECT CASE)
+                self.mark_statement_address();
+            }
             // where to jump out from here if the case block isn't matching
             let next_case_label =
                 labels::next_case_label(case_blocks_len, has_else, case_block_index);
